@@ -368,8 +368,9 @@ def proof_stage(ctx, prop_file, generators, extra_targets=()):
         ok, log = coq_prepare(generators)
         if not ok:
             ctx.obligation_broken("translator", ",".join(generators or ["all"]), log)
-            # keep going with the previously generated tables, if any
-            coq_prepare([]) if False else None
+            # keep going with the previously generated (committed) tables: the proof closure is still
+            # built and the correspondence still runs, so a failing input can still be found
+            coq_prepare([])
         targets = [prop_file[:-2] + ".vo"] + [t for t in extra_targets]
         okm, logm = coq_make(targets)
         res = coq_props(prop_file) if okm else dict(ok=False, compiled=False, theorems=[], prints=[], closed=0,
